@@ -1121,11 +1121,17 @@ def ser_check(prop, tier, seed):
     op = os.path.join(d, "out.ndjson")
     vlib.run_harness(exe, ["ser", "--jobs", jp, "--out", op], timeout=900 if quick else 7200)
     v = vlib.validate_trace_flat(op, module="TraceSer.tla", cfg="TraceSer.cfg", nshards=14, timeout=1800 if quick else 10000, tag=prop + "_ser")
-    violations, known, other = [], {}, 0
+    violations, known, other, xnorm = [], {}, 0, 0
     other += vlib.buildfail(op, prop, violations, known, prop)
     for rj in v["rejects"]:
         if rj["prop"] == "TOOL":
             raise ToolError(f"generated state rejected as input: {rj['detail']}")
+        if rj["prop"] == "X-NORM":
+            # the normaliser law is behaviour beyond the listed properties: noted, never a violation
+            xnorm += 1
+            if xnorm <= 3:
+                log(f"  NOTE beyond-property law (serialisation with a normaliser) rejected: {json.dumps(rj['detail'])[:200]}")
+            continue
         if rj["prop"] != prop:
             other += 1
             continue
@@ -1149,6 +1155,8 @@ def ser_check(prop, tier, seed):
         "samples": [{"params": {k: jobs[0][k] for k in ("cdata", "ugt", "decl", "indent", "suppress")}, "first_nodes": jobs[0]["st"]["n"][:4]}],
         "exhaustive": False, "inputs": counts, "parameter_combinations": len(pcombos),
         "rejections_charged_to_other_properties": other,
+        "normaliser_law": {"events_where_NormF_changes_a_value": sum(1 for j in jobs if not j["indent"] and any(nd["k"] in ("text", "attr") and any(c in (120, 233, 128512, 121) for c in nd["t"]) for nd in j["st"]["n"])),
+                           "rejections_beyond_the_property": xnorm},
     }
     import shutil
     shutil.rmtree(d, ignore_errors=True)
